@@ -42,7 +42,7 @@ def FLOORS(tier):
     q = tier == "quick"
     return {"det:in-process": 400 if q else 15000, "det:fresh-process": 400 if q else 15000,
             "det:without-initial_state": 150, "T0:reference-sweeps": 100 if q else 4000, "T0:flips-seen": 150, "T0:schedule-container:generator": 20,
-            "T0:labelled-with-user-mapping": 60, "T0:infinite-temperature-prefix": 60, "T0:schedule-longer-than-default-duration": 15,
+            "T0:labelled-with-user-mapping": 60, "T0:tiny-scale": 40, "chi2:rare-uphill-ratchet": 8, "T0:infinite-temperature-prefix": 60, "T0:schedule-longer-than-default-duration": 15,
             "T0:anneal_duration-given-with-explicit-schedule": 40,
             "chi2:tests": 40 if q else 1500, "chi2:random-order": 12, "chi2:in-order": 12, "chi2:cubic": 8,
             "chi2:boolean-front-end": 8, "hook-dE-checks": 10 ** 6 if q else 5 * 10 ** 7, "hook-exactness-verdicts": 300, "hook:big-workloads": 8}
@@ -93,7 +93,12 @@ def exact_law(p, n, Ts, init, in_order, dom):
     flip = {dom[0]: dom[1], dom[1]: dom[0]}
     prob = np.zeros(len(states))
     prob[idx[tuple(init)]] = 1.0
+    cache = {}
     for T in Ts:
+        if T in cache:
+            for K in cache[T]:
+                prob = prob @ K
+            continue
         Ks = []
         for i in range(n):
             K = np.zeros((len(states),) * 2)
@@ -107,12 +112,18 @@ def exact_law(p, n, Ts, init, in_order, dom):
                 K[idx[s], idx[s]] += 1 - a
             Ks.append(K)
         if in_order:
-            for K in Ks:
-                prob = prob @ K
+            step = Ks
         else:
             R = sum(Ks) / n
-            for _ in range(n):
-                prob = prob @ R
+            step = [np.linalg.matrix_power(R, n)]
+        if len(step) > 1:
+            M_ = step[0]
+            for K in step[1:]:
+                M_ = M_ @ K
+            step = [M_]
+        cache[T] = step
+        for K in step:
+            prob = prob @ K
     return states, prob
 
 
@@ -221,6 +232,10 @@ def case_t0(ctx, rng, idx):
     spin = tn in ("QUSOMatrix", "PUSOMatrix")
     n = rng.randint(1, 7)
     terms = generic_model(rng, tn, n)
+    if rng.random() < 0.2:
+        # the same model in very small units (every coefficient times 2**-60): "negative" means negative, however small
+        terms = {k: v * 2.0 ** -60 for k, v in terms.items()}
+        ctx.cat("T0:tiny-scale")
     items = list(terms.items())
     rng.shuffle(items)                      # labels need not first appear in increasing order
     terms = dict(items)
@@ -346,8 +361,21 @@ def case_chi2(ctx, rng, idx):
         ctx.cat("chi2:with-zero-temperature-step")
     in_order = rng.random() < 0.5
     N = 100000
+    if rng.random() < 0.12:
+        # rare uphill moves: a ferromagnetic pair started aligned; leaving the well costs dE = 2 at a temperature with
+        # dE/T = r (acceptance probability exp(-r) ~ 1e-5); over k sweeps the other well fills to a few per cent
+        r_, k_ = rng.choice([(9.7, 1000), (11.0, 3000)] + ([(13.0, 20000)] if ctx.tier == "thorough" else []))
+        n = 2
+        terms = {(0, 1): -1.0} if spin else {(): -1.0, (0,): 2.0, (1,): 2.0, (0, 1): -4.0}
+        M = getattr(L, tn)(terms)
+        p = ref.from_raw("spin" if spin else "bool", {k: frac(v) for k, v in terms.items()})
+        init = [dom[0], dom[0]] if rng.random() < 0.5 else [dom[1], dom[1]]
+        Ts = [2.0 / r_] * k_
+        N = 20000
+        zero_step = False
+        ctx.cat("chi2:rare-uphill-ratchet")
     kw = dict(schedule=Ts, initial_state=dict(enumerate(init)), in_order=in_order, num_anneals=N, seed=rng.randrange(1, 10 ** 6))
-    w = {"function": fn, "type": tn, "terms": terms, "kwargs": {k: v for k, v in kw.items()}}
+    w = {"function": fn, "type": tn, "terms": terms, "kwargs": {k: (v if k != "schedule" or len(v) < 10 else "[%r]*%d" % (v[0], len(v))) for k, v in kw.items()}}
     ok, res = ctx.call(fn, getattr(L.sim, fn), M, _w=w, **kw)
     if not ok:
         return
@@ -383,8 +411,8 @@ def case_chi2(ctx, rng, idx):
         ctx.violation("chi2:distribution-rejected:" + ("in-order" if in_order else "random-order"),
                       "chi2=%.1f df=%d p=%.3g; observed %r expected %r" % (chi2, df, pv, [int(x) for x in o], [round(x, 1) for x in e]), w)
         return
-    ctx.nontrivial(("chi2", fn, sorted(terms.items()), init, Ts, in_order))
-    ctx.sample({"chi2": w["function"], "terms": terms, "Ts": Ts, "in_order": in_order, "chi2": round(chi2, 2), "df": df, "p": pv}, limit=2)
+    ctx.nontrivial(("chi2", fn, sorted(terms.items()), init, Ts[:6], len(Ts), in_order))
+    ctx.sample({"chi2": w["function"], "terms": terms, "Ts": Ts[:6], "sweeps": len(Ts), "in_order": in_order, "chi2": round(chi2, 2), "df": df, "p": pv}, limit=2)
 
 
 def case_big(ctx, rng, idx):
